@@ -1155,7 +1155,16 @@ fn decoy_tc(r: &mut Rng, q: &Qd, buf: usize, tc4: u64) -> String {
         2 => format!("JJJJ{}", hx(&right)),
         3 => {
             // another name
-            let other = if q.qname == "." || r.chance(1, 3) {
+            let labels: Vec<&str> = q.qname.trim_end_matches('.').split('.').filter(|l| !l.is_empty()).collect();
+            let other = if q.qname != "." && r.chance(1, 3) {
+                // a name related to the asked one label-wise: its leading labels only, its trailing
+                // labels only, or the root (which has no label to differ in)
+                match r.below(3) {
+                    0 if labels.len() > 1 => labels[..r.range(1, labels.len() as u64 - 1) as usize].join("."),
+                    1 if labels.len() > 1 => labels[r.range(1, labels.len() as u64 - 1) as usize..].join("."),
+                    _ => ".".to_string(),
+                }
+            } else if q.qname == "." || r.chance(1, 3) {
                 simple_qname(r)
             } else {
                 let mut b = q.qname.clone().into_bytes();
@@ -1487,7 +1496,9 @@ fn gen_c13(r: &mut Rng, index: u64) -> String {
     let mut e0: Vec<String> = (0..n).map(|_| decoy_tc(r, &q, buf, 2)).collect();
     let tc = r.chance(2, 3);
     let flags = if r.chance(2, 3) { resp_flags(r, tc) } else if tc { 0x8380 } else { 0x8180 };
-    e0.push(format!("IIII{}", hx(&msg_tail(flags, 1, 0, &q.question(false), &[]))));
+    // a truncated answer often keeps the counts of the full answer although the records were dropped
+    let an = if tc && r.chance(1, 2) { *r.pick(&[1u16, 25, 300, 65535]) } else { 0 };
+    e0.push(format!("IIII{}", hx(&msg_tail(flags, 1, an, &q.question(false), &[]))));
     let ans = a_records(r, 1);
     let tcp_tail = msg_tail(0x8180, 1, 1, &q.question(false), &ans);
     line(
@@ -1815,7 +1826,10 @@ fn gen_c16(r: &mut Rng, index: u64) -> String {
     let cfgbuf = *r.pick(&[512usize, 1232]);
     let nq = r.range(2, 5) as usize;
     // 0 raw, 1 rrset, 2 silence, 3 invalid name, 4 malformed (rrset), 5 tcp oversize, 6 late
-    // duplicate, 7 drop, 8 tcp response cut short (the server closes inside the announced body)
+    // duplicate, 7 drop, 8 tcp response cut short (the server closes inside the announced body),
+    // 9 two typed queries for one name: a full answer with three records, then a complete frame /
+    // datagram whose header still claims three answers but which carries one (what lies behind it in
+    // the client's buffer is the first answer)
     let mut kinds: Vec<u8> = Vec::new();
     let mut silent = 0;
     for i in 0..nq {
@@ -1823,7 +1837,7 @@ fn gen_c16(r: &mut Rng, index: u64) -> String {
             kinds.push(r.below(2) as u8);
             break;
         }
-        let mut k = r.below(9) as u8;
+        let mut k = r.below(10) as u8;
         if k == 8 && strat != "tcp" {
             k = 0;
         }
@@ -1985,6 +1999,26 @@ fn gen_c16(r: &mut Rng, index: u64) -> String {
                         (0..n).map(|_| dup.clone()).collect(),
                     );
                 }
+            }
+            9 => {
+                api = "rrset";
+                q.qtype = 1;
+                q.qclass = 1;
+                let full = a_records(r, 3);
+                let mut u1: Vec<Vec<String>> = Vec::new();
+                let mut t1: Vec<Vec<String>> = Vec::new();
+                reply(&mut u1, &mut t1, msg_tail(0x8180, 1, 3, &q.question(false), &full), vec![]);
+                qs.push(GQ {
+                    api,
+                    q: q.clone(),
+                    buf,
+                    drop: None,
+                    udp: u1,
+                    tcp: t1,
+                });
+                let keep = r.range(1, 2) as usize;
+                let part = a_records(r, keep);
+                reply(&mut udp, &mut tcp, msg_tail(0x8180, 1, 3, &q.question(false), &part), vec![]);
             }
             8 => {
                 // the prefix announces the whole response, the server closes after k of its octets: the
